@@ -111,7 +111,7 @@ PROPS = {
         "level": "proof",
         "race": True,
         "extract": ["Service", "Signals", "Locks"],
-        "extra_modules": ["QiVerif.Props.C16Add", "QiVerif.Props.C16Mailbox", "QiVerif.Tie.UpdateLoop", "QiVerif.Props.Locks", "QiVerif.Tie.Locks"],
+        "extra_modules": ["QiVerif.Props.C16Add", "QiVerif.Props.C16Mailbox", "QiVerif.Props.C16Client", "QiVerif.Tie.ClientService", "QiVerif.Tie.UpdateLoop", "QiVerif.Props.Locks", "QiVerif.Tie.Locks"],
         "rule": "random histories (8-32 operations each) of Add / Remove (live, already removed, unknown id) / remote call "
                 "/ remote terminate (own id, 0, wrong id) / subscribe (one connection per subscriber) on a real service "
                 "hosted by a real server, followed by state snapshots (invocation and OnTerminate counters per object "
